@@ -1,15 +1,17 @@
 package main
 
 import (
+	"fmt"
 	"os"
 
 	"verif/hist"
+	"verif/scen"
 )
 
 func init() {
 	props["C18"] = &propInfo{Level: "model_checking",
 		Rule: "explicit-state BFS to closure over Insert/Delete histories of every tree kind x 7 value types (int, string, *struct, []byte, struct{}, [24]uint64, struct{ptr,string,slice}); keys and values are fresh heap objects referenced only by the tree; the collector is an enumerated environment event: a forced collection after every operation of every replay (thorough: additionally every subset of positions for histories of up to 8 operations); GODEBUG=clobberfree=1, GC percent 1, checkptr-instrumented build; in every reachable state every stored key and value is compared deeply with the reference through Search, All, Backward, extremes and Range; a runtime fatal error of the job is a violation",
-		Assume: []string{"collections happen at operation boundaries only in this check; collections at statement boundaries inside operations are explored by the scheduler engine where available",
+		Assume: []string{"collections at operation boundaries: every position (thorough: every subset for histories <= 8 operations); collections inside operations: every statement boundary of representative histories (insert all, iterate, range, delete half, iterate, search all) per tree kind with pointer-rich values, one event per history (thorough: every pair), on the overlay-instrumented build",
 			"clobberfree makes use-after-free of a hidden reference a deterministic mismatch rather than a lucky read"},
 		Jobs: func(tier string, seed int) []JobDef {
 			var out []JobDef
@@ -17,6 +19,20 @@ func init() {
 			for _, d := range hist.Registry("C18", tier) {
 				out = append(out, JobDef{Name: d.Name, Bin: bin, Env: []string{"GODEBUG=clobberfree=1"}, CrashIsViolation: true,
 					Args: []string{"job", "-prop", "C18", "-tier", tier, "-universe", d.Name}})
+			}
+			// collections at every statement boundary inside operations (engine E4, instrumented build)
+			sbin := os.Getenv("VERIF_BIN_SCHED")
+			events := "1"
+			shards := 1
+			if tier == "thorough" {
+				events = "2"
+				shards = 8
+			}
+			for _, sc := range scen.GCScenarios(tier) {
+				for s := 0; s < shards; s++ {
+					out = append(out, JobDef{Name: fmt.Sprintf("%s#%d/%d", sc.Name, s, shards), Bin: sbin, Env: []string{"GODEBUG=clobberfree=1"}, CrashIsViolation: true,
+						Args: []string{"job", "-prop", "C18", "-tier", tier, "-universe", sc.Name, "-bound", events, "-shard", fmt.Sprint(s), "-shards", fmt.Sprint(shards)}})
+				}
 			}
 			return out
 		}}
